@@ -255,4 +255,248 @@ abbrev Record := String → Option Val
 
 def agreeOn (fs : List String) (a b : Record) : Prop := ∀ f ∈ fs, a f = b f
 
+/-! ### review additions: the encodings over *any* `Encoder` (the Protocol of the code)
+
+  `classification_encoding`, `multilabel_encoding`, `prediction_encoding` take an arbitrary
+  object with `encode` / `num_classes`; `SimpleEncoder` is one instance.  `enc` is
+  `encoder.encode` (a Python `Optional[int]`, so an `Int`), `n` is `encoder.num_classes`.
+  The stores `encoded[index] = v` follow numpy's index rule (`normIdx`): a negative index
+  counts from the end, anything outside `[-n, n)` is an `IndexError` (`none`).
+-/
+
+/-- `a[i]` for a sequence of length `n` (Python list / tuple / numpy): the position addressed,
+    `none` = `IndexError` -/
+def normIdx (n : Nat) (i : Int) : Option Nat :=
+  if 0 ≤ i then (if i.toNat < n then some i.toNat else none)
+  else if -(n : Int) ≤ i then some (i + n).toNat else none
+
+/-- `SimpleEncoder.decode` for any Python integer: `self._tags[index]` -/
+def decodeI (vocab : List Tag) (i : Int) : Option Tag := (normIdx vocab.length i).bind (vocab[·]?)
+
+/-- `classification_encoding` over any encoder: the first result that is not `None` -/
+def classificationG {α} (enc : α → Option Int) : List α → Option Int
+  | [] => none
+  | t :: ts =>
+    match enc t with
+    | some i => some i
+    | none => classificationG enc ts
+
+/-- one iteration of the fill loops with numpy's index rule; `none` = `IndexError` -/
+def storeI {β} (acc : List β) (idx : Option Int) (v : β) : Option (List β) :=
+  match idx with
+  | none => some acc
+  | some i => (normIdx acc.length i).map fun k => acc.set k v
+
+/-- the fill loop of `multilabel_encoding` / `prediction_encoding` over any encoder:
+    `np.zeros(n)` then one store of `val x` per element -/
+def fillG {α β} (enc : α → Option Int) (val : α → β) (n : Nat) (zero : β) (xs : List α) : Option (List β) :=
+  xs.foldlM (fun acc x => storeI acc (enc x) (val x)) (List.replicate n zero)
+
+def multilabelG {α} (enc : α → Option Int) (n : Nat) (tags : List α) : Option (List Nat) :=
+  fillG enc (fun _ => 1) n 0 tags
+
+def predictionG {α} (cast : Rat → Rat) (enc : α → Option Int) (score : α → Rat) (n : Nat) (preds : List α) :
+    Option (List Rat) :=
+  fillG enc (fun p => cast (score p)) n 0 preds
+
+/-- the position an element is stored at by the fill loops, `none` if the encoder skips it -/
+def slot {α} (enc : α → Option Int) (n : Nat) (x : α) : Option Nat := (enc x).bind (normIdx n)
+
+/-- the element's index is an `IndexError` for an array of length `n` -/
+def oor {α} (enc : α → Option Int) (n : Nat) (x : α) : Bool :=
+  match enc x with
+  | none => false
+  | some i => (normIdx n i).isNone
+
+/-- `SimpleEncoder.encode` seen through the Protocol (a Python int) -/
+def encodeI (vocab : List Tag) (t : Tag) : Option Int := (encode vocab t).map Int.ofNat
+
+/-! ### review additions: `find_tag` / `find_feature` (tags.py, features.py) -/
+
+/-- `find_tag(tags, label, term, default)` and `find_feature(features, label, term, default)`:
+    the term takes precedence over the label; the first match, else the default;
+    outer `none` = `ValueError` (neither given).  `termOf` is `.term` of a tag / feature. -/
+def findBy {α} (termOf : α → Term) (xs : List α) (label : Option String) (term : Option Term)
+    (default : Option α) : Option (Option α) :=
+  match term with
+  | some tm => some ((xs.find? (fun x => termOf x = tm)).or default)
+  | none =>
+    match label with
+    | some l => some ((xs.find? (fun x => (termOf x).label = l)).or default)
+    | none => none
+
+def findTag := @findBy Tag (·.term)
+
+/-- `soundevent.data.Feature`; the value is the exact value of the binary64 field -/
+structure Feature where
+  term : Term
+  value : Rat
+  deriving DecidableEq, Repr, Inhabited
+
+def findFeature := @findBy Feature (·.term)
+
+/-! ### review additions: the deprecated `key=` / `name=` construction path (data/compat.py) -/
+
+/-- `compat.term_from_key` -/
+def termFromKey (k : String) : Term :=
+  { label := k, definition := "Unknown", name := "soundevent:" ++ k, uri := none, typeOfTerm := "property",
+    comment := none, see := none, subpropertyOf := none, subclassOf := none, domain := none,
+    domainIncludes := none, termRange := none, rangeIncludes := none, memberOf := none, instanceOf := none,
+    equivalentProperty := none, description := none, scopeNote := none, extra := [] }
+
+/-- `compat.key_from_term` (= the deprecated `Tag.key` / `Feature.name` properties) -/
+def keyFromTerm (t : Term) : String := t.label
+
+/-- `Tag.handle_deprecated_key` followed by validation: a given term wins over a given key, the
+    key alone is turned into a term, neither = `ValidationError` (`none`) -/
+def tagInit (key : Option String) (term : Option Term) (value : String) : Option Tag :=
+  match term with
+  | some tm => some ⟨tm, value⟩
+  | none => key.map fun k => ⟨termFromKey k, value⟩
+
+/-- `Feature.handle_deprecated_name` followed by validation -/
+def featureInit (name : Option String) (term : Option Term) (value : Rat) : Option Feature :=
+  match term with
+  | some tm => some ⟨tm, value⟩
+  | none => name.map fun k => ⟨termFromKey k, value⟩
+
+/-! ### review additions: a hash table over keys with a coarser `==`
+
+  CPython's `dict` / `set` compare the stored hash first and call `==` only on entries whose
+  hash equals the probe's.  `hd*` model exactly that (entries in insertion order, probing
+  order abstracted away); `ad*` is the association list the rest of the model uses.  That the
+  two agree is the hash / equality contract (theorem `C19_hashdict_sound`); without it an
+  equal key is not found (example in `Proofs/C19.lean`).
+-/
+
+def adSet {ρ ν} (eqv : ρ → ρ → Bool) : List (ρ × ν) → ρ → ν → List (ρ × ν)
+  | [], k, v => [(k, v)]
+  | (k', v') :: d, k, v => if eqv k' k then (k', v) :: d else (k', v') :: adSet eqv d k v
+
+def adGet {ρ ν} (eqv : ρ → ρ → Bool) : List (ρ × ν) → ρ → Option ν
+  | [], _ => none
+  | (k', v') :: d, k => if eqv k' k then some v' else adGet eqv d k
+
+def hdSet {ρ ν} (eqv : ρ → ρ → Bool) (h : ρ → Int) : List (ρ × ν) → ρ → ν → List (ρ × ν)
+  | [], k, v => [(k, v)]
+  | (k', v') :: d, k, v => if h k' = h k && eqv k' k then (k', v) :: d else (k', v') :: hdSet eqv h d k v
+
+def hdGet {ρ ν} (eqv : ρ → ρ → Bool) (h : ρ → Int) : List (ρ × ν) → ρ → Option ν
+  | [], _ => none
+  | (k', v') :: d, k => if h k' = h k && eqv k' k then some v' else hdGet eqv h d k
+
+/-- `{k: i for i, k in enumerate(keys)}` on the hash table, continued from index `i` -/
+def hdBuild {ρ} (eqv : ρ → ρ → Bool) (h : ρ → Int) (d : List (ρ × Nat)) (i : Nat) : List ρ → List (ρ × Nat)
+  | [] => d
+  | k :: ks => hdBuild eqv h (hdSet eqv h d k i) (i + 1) ks
+
+def adBuild {ρ} (eqv : ρ → ρ → Bool) (d : List (ρ × Nat)) (i : Nat) : List ρ → List (ρ × Nat)
+  | [] => d
+  | k :: ks => adBuild eqv (adSet eqv d k i) (i + 1) ks
+
+/-- `x in {k1, …}` on the hash table -/
+def hsMem {ρ} (eqv : ρ → ρ → Bool) (h : ρ → Int) (s : List ρ) (x : ρ) : Bool :=
+  s.any fun k => h k = h x && eqv k x
+
+/-! ### review additions: raw Python values (int and float apart, signed zero) and their hashes
+
+  `Val` above is what the harness hands over after making numbers canonical.  `PyVal` keeps
+  what Python keeps apart although `==` identifies it (`1 == 1.0`, `0.0 == -0.0`); `PyVal.beq`
+  is Python's `==`, `pyHash` the hash computed by the hand-written `__hash__` methods from
+  arbitrary primitive hash functions `H`.
+-/
+
+inductive PyVal
+  | none
+  | bool (b : Bool)
+  | str (s : String)
+  | int (n : Int)
+  | float (q : Rat) (negZero : Bool)    -- finite binary64 by exact value; `negZero` marks `-0.0`
+  | list (xs : List PyVal)
+  | tuple (xs : List PyVal)
+  | obj (cls : String) (names : List String) (vals : List PyVal)
+  deriving Repr, Inhabited
+
+mutual
+def PyVal.beq : PyVal → PyVal → Bool
+  | .none, .none => true
+  | .bool a, .bool b => a == b
+  | .str a, .str b => a == b
+  | .int a, .int b => a == b
+  | .float a _, .float b _ => a == b
+  | .int a, .float b _ => (a : Rat) == b
+  | .float a _, .int b => a == (b : Rat)
+  | .list a, .list b => PyVal.beqList a b
+  | .tuple a, .tuple b => PyVal.beqList a b
+  | .obj c n a, .obj d m b => c == d && n == m && PyVal.beqList a b
+  | _, _ => false
+def PyVal.beqList : List PyVal → List PyVal → Bool
+  | [], [] => true
+  | a :: as, b :: bs => PyVal.beq a b && PyVal.beqList as bs
+  | _, _ => false
+end
+
+/-- the fields each hand-written `__hash__` hashes, by class (`none` = no hand-written hash:
+    a pydantic model that is not frozen is unhashable) -/
+def hashFields (cls : String) : Option (List String) :=
+  if cls = "Term" then some ["name"]
+  else if cls = "Tag" ∨ cls = "Feature" then some ["term", "value"]
+  else if cls = "Note" ∨ cls = "SoundEvent" ∨ cls = "SoundEventAnnotation"
+      ∨ cls = "SoundEventPrediction" ∨ cls = "ClipPrediction" then some ["uuid"]
+  else none
+
+/-- a table of hashed fields as extracted by the check: rows (class, fields) -/
+def tableOf (rows : List (String × List String)) : String → Option (List String) := fun c => rows.lookup c
+
+/-- primitive hash functions of the interpreter (arbitrary) and the way each class combines
+    the hashes of the fields it reads (`hash(x)`, `hash((x, y))`, …: arbitrary) -/
+structure PyHasher where
+  none : Int
+  bool : Bool → Int
+  str : String → Int
+  int : Int → Int
+  float : Rat → Int
+  tuple : List Int → Int
+  combine : String → List Int → Int
+
+def allSome {α} : List (Option α) → Option (List α)
+  | [] => some []
+  | none :: _ => none
+  | some x :: xs => (allSome xs).map (x :: ·)
+
+mutual
+/-- `hf` is the table of hashed fields per class (`hashFields` for the pinned code; the check
+    instantiates the theorems with the table it extracts from the current source) -/
+def pyHash (hf : String → Option (List String)) (H : PyHasher) : PyVal → Option Int
+  | .none => some H.none
+  | .bool b => some (H.bool b)
+  | .str s => some (H.str s)
+  | .int n => some (H.int n)
+  | .float q _ => some (H.float q)
+  | .list _ => Option.none
+  | .tuple xs => (allSome (pyHashList hf H xs)).map H.tuple
+  | .obj cls names vals =>
+    match hf cls with
+    | Option.none => Option.none
+    | some fs =>
+      (allSome (fs.map fun f => ((names.zip (pyHashList hf H vals)).lookup f).join)).map (H.combine cls)
+def pyHashList (hf : String → Option (List String)) (H : PyHasher) : List PyVal → List (Option Int)
+  | [] => []
+  | x :: xs => pyHash hf H x :: pyHashList hf H xs
+end
+
+/-- the canonical tree the harness sends for a raw value -/
+def PyVal.canon : PyVal → Val
+  | .none => .none
+  | .bool b => .bool b
+  | .str s => .str s
+  | .int n => .num n
+  | .float q _ => .num q
+  | .list xs => .list (canonList xs)
+  | .tuple xs => .tuple (canonList xs)
+  | .obj c n vs => .obj c n (canonList vs)
+where canonList : List PyVal → List Val
+  | [] => []
+  | x :: xs => PyVal.canon x :: canonList xs
+
 end SE.Encoding
